@@ -2,6 +2,7 @@ import SafeNet.Base.Sha256
 import SafeNet.Proofs.StoreCap
 import SafeNet.Proofs.StoreCapCrash
 import SafeNet.Proofs.StoreFlush
+import SafeNet.Proofs.StoreFault
 /-!
 # C10 — store capacity, distance-based eviction and quoting metrics are exact
 
@@ -617,6 +618,65 @@ example : Gen.Store.pruneRefuseStrict = true ∧ Gen.Store.farthestUpdateStrict 
     Gen.Store.withinRangeExclusive = true ∧ Gen.Store.cleanupFromInclusive = true ∧
     Gen.Store.maxRecordsCount = 16384 ∧ Gen.Store.cleanupMin = 1638 := by decide
 
+/-! ## capacity accounting with FAILING writes (`Model/StoreFault`) -/
+
+/-- **A failed write is never counted.** The write task that fails touches files and the pending lists only: the record
+index, the distance index, the farthest record, the cache, the payment count and therefore every quoting figure are
+what they were (a key enters the index only through `AddLocalRecordAsStored`, which a failed write does not send). -/
+theorem failed_write_never_counted (cfg : Cfg) (fs : FSt) (id : Nat) (f : Fault) (k : Nat) :
+    let s' := (runFail cfg fs id f).1.s
+    s'.index = fs.s.index ∧ s'.byDist = fs.s.byDist ∧ s'.farthest = fs.s.farthest ∧
+      metrics cfg s' k = metrics cfg fs.s k := by
+  have h := runFail_frame cfg fs id f
+  simp only at h
+  obtain ⟨h1, h2, h3, _, h5, h6, _⟩ := h
+  refine ⟨h1, h2, h3, ?_⟩
+  simp only [metrics, contains, h1, h2, h5, h6]
+
+/-- **The three views agree after every history with failing writes** (and their handling, which is `remove`). -/
+theorem views_agree_faults (cfg : Cfg) (dist : Nat → Nat) (inj : Injective dist) (fops : List FOp) :
+    let s := (frun cfg dist fops).s
+    (∀ d k, (d, k) ∈ s.byDist ↔ (k ∈ keys s.index ∧ d = dist k)) ∧
+    (s.byDist.map (·.2)).Perm (keys s.index) ∧ (keys s.index).Nodup ∧
+    (match s.farthest with
+      | none => s.index = []
+      | some (f, fd) => f ∈ keys s.index ∧ fd = dist f ∧ ∀ k ∈ keys s.index, dist k ≤ fd) := by
+  have h : Views dist (frun cfg dist fops).s := Views.frunFrom inj fops (Views.init cfg inj)
+  refine ⟨?_, h.perm, h.nodup, ?_⟩
+  · intro d k
+    constructor
+    · intro hm
+      refine ⟨h.perm.mem_iff.mp (List.mem_map.mpr ⟨_, hm, rfl⟩), h.dOK _ hm⟩
+    · rintro ⟨hk, rfl⟩
+      obtain ⟨e, he, rfl⟩ := List.mem_map.mp (h.perm.mem_iff.mpr hk)
+      have := h.dOK e he
+      rw [← this]
+      exact he
+  · have := h.far
+    cases hf : (frun cfg dist fops).s.farthest with
+    | none => rw [hf] at this; exact this
+    | some p => obtain ⟨f, fd⟩ := p; rw [hf] at this; exact this
+
+/-- **Capacity bound with failing writes (partial).** Same missing hypothesis as `capacity_bound_partial` — every put
+happens with nothing in flight (a `RemoveFailedLocalRecord` not yet handled counts as in flight) and the node is not
+restarted. Then listed records plus writes / notifications in flight never exceed `max max_records 1`: a failing write
+turns one write in flight into one failure note (or into nothing), its handling removes a key. -/
+theorem capacity_bound_partial_faults (cfg : Cfg) (dist : Nat → Nat) (inj : Injective dist) (fops : List FOp)
+    (h : AckBeforePutF cfg dist (finit cfg dist) fops) :
+    (frun cfg dist fops).s.index.length + inflight (frun cfg dist fops).s ≤ max cfg.maxRecords 1 :=
+  CapInv.frunFrom inj fops (Views.init cfg inj) (CapInv.init cfg dist) h
+
+/-- non-vacuity: capacity 1; key 5 stored; key 2 (closer) accepted, evicts 5, and its write FAILS; handled; settled:
+nothing is listed (the evicted record is gone as well — the eviction is not undone), nothing in flight -/
+example :
+    let cfg := Cfg.shipped 1 5
+    let d : Nat → Nat := fun k => k
+    let fops : List FOp := [.base (.put 5 3 .chunk), .base (.run 1), .base (.deliver 1), .base (.put 2 6 .chunk),
+      .base (.run 2), .runFail 3 (.full 0), .base (.deliver 3), .base (.run 4)]
+    (frun cfg d fops).s.index = [] ∧ (frun cfg d fops).s.tasks = [] ∧ (frun cfg d fops).s.notes = [] ∧
+      keys (frun cfg d fops).s.disk = [] := by
+  decide
+
 #print axioms SafeNet.Props.C10.views_agree
 #print axioms SafeNet.Props.C10.views_agree_sha
 #print axioms SafeNet.Props.C10.at_capacity_decision
@@ -640,4 +700,7 @@ example : Gen.Store.pruneRefuseStrict = true ∧ Gen.Store.farthestUpdateStrict 
 #print axioms SafeNet.Props.C10.capacityBoundAcked_false
 #print axioms SafeNet.Props.C10.capacity_bound_partial_crashes
 #print axioms SafeNet.Props.C10.lostDeletes_zero_without_restart
+#print axioms SafeNet.Props.C10.failed_write_never_counted
+#print axioms SafeNet.Props.C10.views_agree_faults
+#print axioms SafeNet.Props.C10.capacity_bound_partial_faults
 end SafeNet.Props.C10
